@@ -249,6 +249,36 @@ class Namespace:
         raise Unsupported(f"unknown-external {self._name}.{attr}")
 
 
+def kw_strict(k, what, harmless=()):
+    """keyword arguments a model does not implement must not be dropped silently (a dropped `keepdims=True` made a broadcasting
+    defect invisible): anything outside `harmless` with a non-default value makes the construct unsupported (exit 2)."""
+    for name, v in k.items():
+        if name in harmless:
+            continue
+        if v is None or (name in ("keepdims", "overwrite_a", "overwrite_b", "pivoting", "hermitian", "unit_diagonal", "subok") and v is False) \
+                or (name == "check_finite") or (name == "order" and v in ("C", "K", "A")) or (name == "copy") or (name == "casting"):
+            continue
+        raise Unsupported(f"{what}: keyword {name}={v!r} is not modelled")
+
+
+def keepdims_fix(res, a, axis, keepdims):
+    """re-insert the reduced axes as size-1 axes (numpy keepdims=True)"""
+    if not keepdims:
+        return res
+    a = wrap(a)
+    if axis is None:
+        shape = (1,) * a.ndim
+    else:
+        axes = axis if isinstance(axis, (tuple, list)) else (axis,)
+        axes = [ax % a.ndim for ax in axes]
+        shape = tuple(1 if i in axes else s_ for i, s_ in enumerate(a.shape))
+    if isinstance(res, SymArr):
+        return SymArr(np.asarray(res, dtype=object).reshape(shape), res.kind)
+    out = np.empty(shape, dtype=object)
+    out.reshape(-1)[0] = res
+    return SymArr(out, kind_of_value(res) if not isinstance(res, (bool, int)) else "real")
+
+
 class _UFunc:
     """binary max/min ufunc model with .reduce"""
 
@@ -256,12 +286,14 @@ class _UFunc:
         self.dom, self.name = dom, name
 
     def __call__(self, a, b, **k):
+        kw_strict(k, f"np.{self.name}imum")
         if isinstance(a, SymArr) or isinstance(b, SymArr):
             return self.dom._pairwise(self.name, a, b)
         return self.dom.b_max(a, b) if self.name == "max" else self.dom.b_min(a, b)
 
-    def reduce(self, a, axis=0, **k):
-        return self.dom._red(self.name, a, axis)
+    def reduce(self, a, axis=0, keepdims=False, **k):
+        kw_strict(k, f"np.{self.name}imum.reduce")
+        return keepdims_fix(self.dom._red(self.name, a, axis), a, axis, keepdims)
 
 
 class SymDomain(BaseDomain):
@@ -317,12 +349,12 @@ class SymDomain(BaseDomain):
             floating=TypeModel("floating", lambda v: isinstance(v, (float, Poly))),
             integer=TypeModel("integer", lambda v: isinstance(v, int) and not isinstance(v, bool)),
             inf=float("inf"), pi=3.141592653589793, newaxis=None,
-            zeros=d.np_zeros, empty=d.np_zeros, ones=lambda s, dtype=None: with_dt(mk(s, dtype_kind(dtype), one_of(dtype_kind(dtype))), dt_of(dtype)),
+            zeros=d.np_zeros, empty=d.np_empty, ones=lambda s, dtype=None: with_dt(mk(s, dtype_kind(dtype), one_of(dtype_kind(dtype))), dt_of(dtype)),
             result_type=d.np_result_type, promote_types=d.np_result_type,
             eye=d.np_eye, identity=lambda n, dtype=None: d.np_eye(n, dtype=dtype),
             array=d.np_array, asarray=d.np_array, copy=lambda a: wrap(a).copy(),
             zeros_like=lambda a, dtype=None: with_dt(mk(a.shape, dtype_kind(dtype) if dtype is not None else wrap(a).kind), dt_of(dtype) if dtype is not None else dt_like(getattr(a, "_dt", None))),
-            empty_like=lambda a, dtype=None: with_dt(mk(a.shape, dtype_kind(dtype) if dtype is not None else wrap(a).kind), dt_of(dtype) if dtype is not None else dt_like(getattr(a, "_dt", None))),
+            empty_like=lambda a, dtype=None: with_dt(d.np_empty(wrap(a).shape, dtype if dtype is not None else DType(wrap(a).kind)), dt_of(dtype) if dtype is not None else dt_like(getattr(a, "_dt", None))),
             ones_like=lambda a: with_dt(mk(a.shape, wrap(a).kind, one_of(wrap(a).kind)), dt_like(getattr(a, "_dt", None))),
             full_like=lambda a, v: with_dt(mk(a.shape, wrap(a).kind, v), dt_like(getattr(a, "_dt", None))),
             stack=d.np_stack, hstack=lambda xs: d._cat(np.hstack, xs), vstack=lambda xs: d._cat(np.vstack, xs),
@@ -349,12 +381,12 @@ class SymDomain(BaseDomain):
             vdot=lambda a, b: d.np_sum(d.np_conj(wrap(a).reshape(-1)) * wrap(b).reshape(-1)),
             outer=lambda a, b: wrap(np.outer(wrap(a), wrap(b))),
             finfo=lambda t=None: Namespace("finfo", eps=2.220446049250313e-16, tiny=2.2250738585072014e-308),
-            mean=lambda a, **k: d.np_sum(a, **k) / wrap(a).size,
+            mean=d.np_mean,
             count_nonzero=d.np_count_nonzero,
             triu=lambda a, k=0: d._tri(a, k, True), tril=lambda a, k=0: d._tri(a, k, False),
             ix_=np.ix_, prod_=None,
             fmax=_UFunc(d, "max"), fmin=_UFunc(d, "min"),
-            diagonal=lambda a, offset=0, **k: SymArr(np.diagonal(np.asarray(wrap(a), dtype=object), offset).copy(), wrap(a).kind),
+            diagonal=lambda a, offset=0: SymArr(np.diagonal(np.asarray(wrap(a), dtype=object), offset).copy(), wrap(a).kind),
             atleast_1d=lambda a: (wrap(a).reshape(1) if wrap(a).ndim == 0 else wrap(a)),
             atleast_2d=lambda a: (wrap(a).reshape(1, -1) if wrap(a).ndim < 2 else wrap(a)),
             nonzero=d.np_nonzero, flatnonzero=lambda a: d.np_nonzero(wrap(a).reshape(-1))[0],
@@ -364,7 +396,7 @@ class SymDomain(BaseDomain):
             intp=TypeModel("intp", lambda v: isinstance(v, (int, np.integer)), lambda v=0: d.b_int(v)),
             uint8=DType("int"), uint16=DType("int"), int8=DType("int"), int16=DType("int"),
             bool_=TypeModel("bool_", lambda v: isinstance(v, (bool, np.bool_)), lambda v=False: d.b_bool(v)),
-            add=Namespace("np.add", at=d.np_add_at, reduce=lambda a, axis=0, **k: d.np_sum(a, axis=axis)),
+            add=Namespace("np.add", at=d.np_add_at, reduce=lambda a, axis=0, keepdims=False: d.np_sum(a, axis=axis, keepdims=keepdims)),
             square=lambda v: v * v, negative=lambda v: -v, multiply=lambda a, b: d.binop(d._interp, operator.mul, a, b, None),
             subtract=lambda a, b: d.binop(d._interp, operator.sub, a, b, None),
             divide=lambda a, b: d.binop(d._interp, operator.truediv, a, b, None),
@@ -399,10 +431,30 @@ class SymDomain(BaseDomain):
         return ns
 
     def np_zeros(self, shape, dtype=None, **k):
+        kw_strict(k, "zeros/empty")
         kind = dtype_kind(dtype)
         if kind is None:
             raise Unsupported(f"dtype {dtype!r}")
         return with_dt(mk(shape, kind), dt_of(dtype))
+
+    def np_empty(self, shape, dtype=None, **k):
+        """np.empty / empty_like: UNINITIALISED memory - every cell is a distinct unknown value (atom 'uninit'), so a result that
+        still depends on a cell that was never written differs from every reference"""
+        kw_strict(k, "empty")
+        kind = dtype_kind(dtype)
+        if kind is None:
+            raise Unsupported(f"dtype {dtype!r}")
+        a = mk(shape, kind)
+        t = self.fresh("uninit")
+        flat = a.reshape(-1)
+        for i in range(flat.size):
+            if kind == "quat":
+                flat[i] = SQ(*[Poly.atom(("uninit", t, i, p_)) for p_ in range(4)])
+            elif kind == "complex":
+                flat[i] = SC(Poly.atom(("uninit", t, i, 0)), Poly.atom(("uninit", t, i, 1)))
+            else:
+                flat[i] = Poly.atom(("uninit", t, i))
+        return with_dt(a, dt_of(dtype))
 
     def np_result_type(self, *xs):
         """np.result_type / np.promote_types: the promoted dtype is at least as wide as every operand (src tag kept only
@@ -481,16 +533,19 @@ class SymDomain(BaseDomain):
                    where=getattr(fn, "where", where), construct=f"buffer dtype taken from one input ({bt[1]})",
                    loc=where)
 
-    def np_eye(self, n, m=None, dtype=None, **k):
+    def np_eye(self, n, m=None, k=0, dtype=None, **kw):
+        kw_strict(kw, "eye")
         kind = dtype_kind(dtype)
         n = _dim(n)
         m = n if m is None else _dim(m)
         a = mk((n, m), kind)
-        for i in range(min(n, m)):
-            a[i, i] = one_of(kind)
-        return a
+        for i in range(n):
+            if 0 <= i + int(k) < m:
+                a[i, i + int(k)] = one_of(kind)
+        return with_dt(a, dt_of(dtype))
 
     def np_array(self, obj, dtype=None, copy=True, **k):
+        kw_strict(k, "array")
         if isinstance(obj, SymArr):
             r = obj.copy() if copy else obj
             if dtype is not None and dtype_kind(dtype) not in (None, r.kind):
@@ -591,7 +646,12 @@ class SymDomain(BaseDomain):
             return out
         return one(a)
 
-    def np_sum(self, a, axis=None, **k):
+    def np_sum(self, a, axis=None, keepdims=False, **k):
+        kw_strict(k, "sum", harmless=("dtype",))
+        if keepdims:
+            if isinstance(a, (list, tuple)):
+                a = self.np_array(a)
+            return keepdims_fix(self.np_sum(a, axis=axis), a, axis, True)
         if isinstance(a, (list, tuple)):
             a = self.np_array(a)
         if not isinstance(a, SymArr):
@@ -604,6 +664,15 @@ class SymDomain(BaseDomain):
         if isinstance(r, np.ndarray):
             return SymArr(r, a.kind)
         return r if not (is_number(r) and not isinstance(r, Poly)) else Poly.const(r) if a.size == 0 else r
+
+    def np_mean(self, a, axis=None, keepdims=False, **k):
+        kw_strict(k, "mean", harmless=("dtype",))
+        a = wrap(a)
+        n = a.size if axis is None else int(np.prod([a.shape[ax] for ax in (axis if isinstance(axis, (tuple, list)) else (axis,))]))
+        tot = self.np_sum(a, axis=axis, keepdims=keepdims)
+        if isinstance(tot, SymArr):
+            return self.binop(None, operator.truediv, tot, n, None)
+        return tot / n
 
     def _count_true(self, a):
         """Number of True entries of a boolean array whose entries may be UNKNOWN conditions
@@ -624,6 +693,7 @@ class SymDomain(BaseDomain):
         return n
 
     def np_count_nonzero(self, a, axis=None, **k):
+        kw_strict(k, "count_nonzero")
         a = wrap(a)
         if axis is None and all(isinstance(v, (bool, np.bool_)) or is_unknown(v) for v in a.reshape(-1)):
             return self._count_true(a)
@@ -669,11 +739,13 @@ class SymDomain(BaseDomain):
             return out
         return abs(v)
 
-    def np_max(self, a, axis=None, **k):
-        return self._red("max", a, axis)
+    def np_max(self, a, axis=None, keepdims=False, **k):
+        kw_strict(k, "max")
+        return keepdims_fix(self._red("max", a, axis), a, axis, keepdims)
 
-    def np_min(self, a, axis=None, **k):
-        return self._red("min", a, axis)
+    def np_min(self, a, axis=None, keepdims=False, **k):
+        kw_strict(k, "min")
+        return keepdims_fix(self._red("min", a, axis), a, axis, keepdims)
 
     def _red(self, name, a, axis):
         if isinstance(a, (list, tuple)):
@@ -705,6 +777,7 @@ class SymDomain(BaseDomain):
         return self.choice(a.size, ("argmin", a))
 
     def np_argsort(self, a, **k):
+        kw_strict(k, "argsort", harmless=("kind",))
         a = wrap(a)
         flat = a.reshape(-1)
         if all(isinstance(v, (int, np.integer)) or (isinstance(v, Poly) and v.is_const()) for v in flat):
@@ -720,7 +793,10 @@ class SymDomain(BaseDomain):
             out[idx] = f(SymArr(moved[idx], "real"))
         return SymArr(out, "real")
 
-    def np_any(self, a, axis=None, **k):
+    def np_any(self, a, axis=None, keepdims=False, **k):
+        kw_strict(k, "any")
+        if keepdims:
+            return keepdims_fix(self.np_any(a, axis=axis), a, axis, True)
         if axis is not None:
             return self._reduce_bool(self.np_any, a, axis)
         a = wrap(a)
@@ -740,7 +816,10 @@ class SymDomain(BaseDomain):
             return UNKNOWN(("any", [v for v in a.reshape(-1)]))
         return False
 
-    def np_all(self, a, axis=None, **k):
+    def np_all(self, a, axis=None, keepdims=False, **k):
+        kw_strict(k, "all")
+        if keepdims:
+            return keepdims_fix(self.np_all(a, axis=axis), a, axis, True)
         if axis is not None:
             return self._reduce_bool(self.np_all, a, axis)
         a = wrap(a)
@@ -764,6 +843,7 @@ class SymDomain(BaseDomain):
         return not isinstance(v, (SymArr, list, tuple, Instance)) and (is_number(v) or isinstance(v, (Poly, SQ, SC, str)))
 
     def np_clip(self, a, lo, hi, **k):
+        kw_strict(k, "clip")
         """np.clip: fresh array of the same shape; entry = the number itself when it is a constant, otherwise the
         atom ('clip', key(entry), lo, hi) (value numbering, nothing is evaluated)."""
         if not isinstance(a, SymArr) or a.kind != "real" or not all(is_number(x) and not isinstance(x, Poly) for x in (lo, hi)):
@@ -898,6 +978,7 @@ class SymDomain(BaseDomain):
 
     # linear algebra ----------------------------------------------------------------
     def la_norm(self, a, ord=None, axis=None, **k):
+        kw_strict(k, "norm")
         if isinstance(a, Opaque):
             return a
         if isinstance(a, (list, tuple)):
@@ -917,8 +998,31 @@ class SymDomain(BaseDomain):
             return s.sqrt()
         return Opaque(f"norm-{ord}")
 
-    def la_svd(self, a, full_matrices=True, compute_uv=True, **k):
+    def la_svd(self, a, full_matrices=True, compute_uv=True, hermitian=False, **k):
+        kw_strict(k, "svd", harmless=("lapack_driver",))
         a = wrap(a)
+        if hermitian is not False:
+            # numpy computes the SVD from eigh of the (assumed exactly symmetric) matrix: only the lower triangle is read.  Sound
+            # only when the matrix IS symmetric; a guard that merely tests closeness (allclose / isclose with an absolute
+            # tolerance) lets nearly-symmetric input through and the factorisation of a different matrix is returned.
+            it = self._interp
+            tol_guard = [c for c, _n, dec in (it.decision_log if it is not None else [])
+                         if dec and (getattr(c, "why", None) == "isclose" or (isinstance(getattr(c, "why", None), tuple) and c.why and c.why[0] == "allclose"))]
+            sym = a.ndim == 2 and a.shape[0] == a.shape[1] and all(
+                (a[i, j] - a[j, i]).is_zero() if hasattr(a[i, j] - a[j, i], "is_zero") else a[i, j] == a[j, i]
+                for i in range(a.shape[0]) for j in range(i))
+            ctx = getattr(self, "ctx", None)
+            if sym:
+                pass
+            elif tol_guard and ctx is not None and it is not None:
+                fi = it.call_stack[-1] if it.call_stack else None
+                where = it.where(self._cur_node) if getattr(self, "_cur_node", None) is not None else getattr(fi, "where", "?")
+                ctx.ob(f"{ctx.prop}.E3.svd-hermitian", f"svd(hermitian=True) in {getattr(fi, 'where', '?')}", False,
+                       "np.linalg.svd(..., hermitian=True) is reached for a matrix that is only CLOSE to symmetric (the guard is a "
+                       "tolerance test): numpy then reads one triangle only and returns the factors of a different matrix",
+                       where=getattr(fi, "where", where), construct="svd(hermitian=True) behind a tolerance test", loc=getattr(fi, "where", where))
+            else:
+                raise Unsupported("svd(hermitian=True) on a matrix not known to be symmetric")
         if a.ndim != 2:
             raise ModelError("svd of non 2-D array")
         m, n = a.shape
@@ -933,6 +1037,7 @@ class SymDomain(BaseDomain):
         return labelled(f"svd{t}.U", (m, r)), s, labelled(f"svd{t}.Vt", (r, n))
 
     def la_qr(self, a, mode="full", **k):
+        kw_strict(k, "qr")
         a = wrap(a)
         m, n = a.shape
         t = self.fresh("qr")
@@ -955,6 +1060,7 @@ class SymDomain(BaseDomain):
         return labelled(f"eig{t}.w", (n,), "complex"), labelled(f"eig{t}.V", (n, n), "complex")
 
     def la_eigh(self, a, **k):
+        kw_strict(k, "eigh", harmless=("driver",))
         a = wrap(a)
         n = a.shape[0]
         t = self.fresh("eigh")
@@ -967,12 +1073,14 @@ class SymDomain(BaseDomain):
         return labelled(f"eigvals{t}.w", (a.shape[0],), "complex")
 
     def la_cholesky(self, a, **k):
+        kw_strict(k, "cholesky")
         a = wrap(a)
         t = self.fresh("chol")
         self.events.append(("cholesky", t, a))
         return labelled(f"chol{t}.L", a.shape)
 
     def la_solve(self, a, b, **k):
+        kw_strict(k, "solve", harmless=("assume_a",))
         a, b = wrap(a), wrap(b)
         t = self.fresh("solve")
         self.events.append(("solve", t, a, b))
@@ -985,12 +1093,14 @@ class SymDomain(BaseDomain):
         return labelled(f"trsolve{t}.X", (a.shape[1],) + tuple(b.shape[1:]))
 
     def la_cholesky_scipy(self, a, lower=False, **k):
+        kw_strict(k, "cholesky")
         a = wrap(a)
         t = self.fresh("chol")
         self.events.append(("cholesky", t, a))
         return labelled(f"chol{t}.{'L' if lower else 'U'}", a.shape)
 
     def la_pinv(self, a, **k):
+        kw_strict(k, "pinv", harmless=("rcond", "rtol", "atol"))
         a = wrap(a)
         t = self.fresh("pinv")
         self.events.append(("pinv", t, a))
@@ -1116,6 +1226,8 @@ class SymDomain(BaseDomain):
             a = int(a)
         if isinstance(b, np.integer):
             b = int(b)
+        if isinstance(a, Opaque) or isinstance(b, Opaque):
+            return a if isinstance(a, Opaque) else b
         if op is operator.matmul:
             return self.matmul(a, b)
         if isinstance(a, SymArr) or isinstance(b, SymArr):
@@ -1283,11 +1395,11 @@ class SymDomain(BaseDomain):
                 return r
             return astype
         if attr == "sum":
-            return lambda axis=None, **k: self.np_sum(a, axis=axis)
+            return lambda axis=None, **k: self.np_sum(a, axis=axis, **k)
         if attr == "max":
-            return lambda axis=None, **k: self.np_max(a, axis=axis)
+            return lambda axis=None, **k: self.np_max(a, axis=axis, **k)
         if attr == "min":
-            return lambda axis=None, **k: self.np_min(a, axis=axis)
+            return lambda axis=None, **k: self.np_min(a, axis=axis, **k)
         if attr == "dot":
             return lambda b: self.matmul(a, b)
         if attr == "tolist":
@@ -1315,6 +1427,10 @@ class SymDomain(BaseDomain):
                 return power
             if attr == "multiply":
                 return lambda b: SymArr(np.asarray(a, dtype=object) * np.asarray(b, dtype=object), a.kind, True)
+            if attr in ("data", "indices", "indptr", "nnz", "row", "col"):
+                # raw storage of a scipy sparse matrix: representation dependent (duplicate entries that sum to the value,
+                # explicit zeros, unsorted indices are all legal) - nothing about it follows from the matrix entries
+                return Opaque(f"sparse storage .{attr}")
         raise Unsupported(f"unknown-external ndarray.{attr}" + (f" at {interp.where(node)}" if node is not None and interp else ""))
 
     def getitem(self, interp, obj, idx, node):
